@@ -235,6 +235,10 @@ func newNode() *topicNode {
 
 func (node *topicNode) addClients(ans map[string]byte) {
 	for client, qos := range node.clients {
-		ans[client] = qos
+		// a client may match the topic with several overlapping filters,
+		// the message is delivered with the highest QoS among them.
+		if prev, ok := ans[client]; !ok || qos > prev {
+			ans[client] = qos
+		}
 	}
 }
